@@ -112,6 +112,11 @@ where
     Replicated<Boolean>: BooleanProtocols<DZKPUpgraded<C>>,
 {
     let report_pairs = group_report_pairs_ordered(reports);
+    if report_pairs.is_empty() {
+        // No match key occurred exactly twice on this shard: nothing to add (this stage is local to
+        // the shard, the cross-shard stages that follow still run).
+        return Ok(Vec::new());
+    }
 
     let chunk_size =
         non_zero_prev_power_of_two(TARGET_PROOF_SIZE / (BK::BITS as usize + V::BITS as usize));
